@@ -113,7 +113,8 @@ func c18BuildRaw(kind, spec string) (c18Val, error) {
 	}
 	fi, seed, np, thr, sz := int(u64(f[0])), u64(f[1]), int(u64(f[2])), int(u64(f[3]))-1000, int(u64(f[4]))
 	// optional 6th field: a VARIANT of the value named by the first five - 1: one secret digit differs (key shares) /
-	// one peer's multiaddress differs (topology); 2: the same peers in reverse order; 3: both
+	// one peer's multiaddress differs (topology); 2: the same peers in reverse order; 3: both;
+	// 4 (ECDSA): a value the encoder REFUSES (the public key is a curve point without a registered curve): it cannot be stored
 	variant := 0
 	if len(f) == 6 {
 		variant = int(u64(f[5]))
@@ -229,6 +230,9 @@ func c18Variant(v c18Val, variant int) c18Val {
 		if variant&2 != 0 {
 			k.Peers = rev(k.Peers)
 		}
+		if variant&4 != 0 {
+			k.Key.ECDSAPub = &crypto.ECPoint{}
+		}
 		return c18Val{kind: v.kind, ecdsa: k}
 	case "frost":
 		k := v.frost
@@ -329,7 +333,12 @@ func c18Get(kind, path string) (c18Val, error) { return c18NewObj(kind, path).ge
 // field-by-field, independent of the file format: big integers by Cmp, curve points / scalars by their Equal,
 // byte strings and lists by length and content (nil and empty are the same list), everything else structurally.
 
-func c18Eq(a, b c18Val) bool {
+func c18Eq(a, b c18Val) (eq bool) {
+	defer func() { // a value the libraries cannot even compare (see variant 4) equals nothing
+		if recover() != nil {
+			eq = false
+		}
+	}()
 	switch a.kind {
 	case "ecdsa":
 		return semEq(reflect.ValueOf(a.ecdsa), reflect.ValueOf(b.ecdsa))
@@ -588,8 +597,9 @@ func c18StoreOp(a []string, ro bool) string {
 		return "badspec"
 	}
 	newB, err := c18EncodingOf(kind, newS)
-	if err != nil {
-		return "noref"
+	unstorable := err != nil // the encoder refuses this value: the store has to fail and leave everything as it was
+	if unstorable {
+		newB = nil
 	}
 	dir, err := os.MkdirTemp("", "verif-c18-")
 	if err != nil {
@@ -644,7 +654,7 @@ func c18StoreOp(a []string, ro bool) string {
 	switch {
 	case gerr != nil:
 		get = "err"
-	case c18Eq(got, newV):
+	case !unstorable && c18Eq(got, newV):
 		get = "new"
 	case oldS != "-" && c18Eq(got, oldV):
 		get = "old"
@@ -656,10 +666,12 @@ func c18StoreOp(a []string, ro bool) string {
 		file = "absent"
 	case rerr != nil:
 		file = "unreadable"
-	case bytes.Equal(fb, newB):
+	case !unstorable && bytes.Equal(fb, newB):
 		file = "new"
 	case oldS != "-" && bytes.Equal(fb, oldB):
 		file = "old"
+	case unstorable && len(fb) == 0:
+		file = "pre0"
 	case len(fb) < len(newB) && bytes.Equal(fb, newB[:len(fb)]):
 		file = "pre" + itoa(len(fb))
 	}
@@ -1372,6 +1384,20 @@ func genC18(g *G) {
 			}
 			g.Emit("life", kind, sp, sib, joinOr(steps, ";"))
 		}
+	}
+	// 11. a value the encoder refuses (ECDSA share whose public key has no registered curve): the store must FAIL and leave the
+	//     previous share; alone and combined with write faults, with and without a previous value
+	for i := 0; i < g.Count(16, 300); i++ {
+		bad := rndSpec() + ".4"
+		if i%3 == 0 {
+			bad = c18Spec(i%3, 0, 0, 0, 0) + ".4"
+		}
+		old := rndSpec()
+		if i%4 == 3 {
+			old = "-"
+		}
+		mode := []string{"none", "none", "fail", "die"}[i%4]
+		g.Emit("store", "ecdsa", mode, itoa(g.Intn(3000)), old, bad)
 	}
 	// 4. random everything: kind, mode, previous value or none, same value stored twice, k around the boundaries
 	for i := 0; i < g.Count(120, 3000); i++ {
